@@ -23,6 +23,7 @@ DECIDING = 'resumes_compared'
 CHUNK = {'quick': 1, 'thorough': 1}
 TIMEOUT = 3000
 R = 8
+BUDGET = 30_000_000      # proposals; a cut run that needs more than this while the reference finished is a difference
 FAMILIES = ['gauss', 'mixture', 'periodic', 'funnel', 'plateau', 'corr', 'ring', 'islands']
 RULE = ('three kinds of case on small seeded runs (K = 20..90 batches; networks 0/1, periodic, every blob dtype, '
         'discard_exploration, vectorised, Prior object or function). (every_k) reference = one uninterrupted run; the '
@@ -137,6 +138,8 @@ def run_case(spec):
             viols.append(dict(key=key, what=what, case=samplercase.case_key(spec), kind=spec['kind'], **kw))
 
     def code_raise(e):
+        if isinstance(e, workloads.BudgetExceeded):
+            return 'did not finish although the uninterrupted reference did: %s' % e
         frames = __import__('traceback').extract_tb(e.__traceback__)
         if not any(f.filename.startswith(env.REPO + '/') for f in frames) or frames[-1].filename.startswith(env.VERIF + '/'):
             raise e
@@ -148,9 +151,10 @@ def run_case(spec):
         prob = workloads.Problem(spec['prob'])
         ref = workloads.make_sampler(prob, cfg, filepath=os.path.join(scratch, 'ref.hdf5'), resume=False)
         try:
-            ok = ref.run(**_kw(cfg, n_like_max=cap))
-        except np.linalg.LinAlgError as e:
-            return {'status': 'skipped', 'reason': repr(e), 'obs': obs}
+            with Hooks([], proposal_budget=BUDGET, clock=VirtualClock()):
+                ok = ref.run(**_kw(cfg, n_like_max=cap))
+        except (np.linalg.LinAlgError, workloads.BudgetExceeded) as e:
+            return {'status': 'skipped', 'reason': 'reference run: %r' % e, 'obs': obs}
         if not ok:
             return {'status': 'skipped', 'reason': 'reference did not converge within %d evaluations' % cap, 'obs': obs}
         d_ref, n_ref = result_digest(ref), int(ref.n_like)
@@ -163,7 +167,7 @@ def run_case(spec):
             path = os.path.join(scratch, 'sliced.hdf5')
             log = EvalLog()
             copies = {}
-            with Hooks([log]):
+            with Hooks([log], proposal_budget=BUDGET, clock=VirtualClock()):
                 s = workloads.make_sampler(prob, cfg, filepath=path, resume=False)
                 k = 0
                 try:
@@ -202,7 +206,7 @@ def run_case(spec):
                     prob2 = workloads.Problem(spec['prob'])
                     log2 = EvalLog()
                     try:
-                        with Hooks([log2]):
+                        with Hooks([log2], proposal_budget=BUDGET, clock=VirtualClock()):
                             s2 = workloads.make_sampler(prob2, cfg, filepath=cp, resume=True)
                             n0 = int(s2.n_like)
                             s2.run(**_kw(cfg, n_like_max=cap))
@@ -239,7 +243,7 @@ def run_case(spec):
                 clock = VirtualClock()
                 ops = []
                 try:
-                    with Hooks([], clock=clock):
+                    with Hooks([], proposal_budget=BUDGET, clock=clock):
                         s = workloads.make_sampler(prob, cfg, filepath=path, resume=False)
                         for step in range(400):
                             r = rng.random()
@@ -282,6 +286,8 @@ def run_case(spec):
                 prob = workloads.Problem(spec['prob'])
                 path = os.path.join(scratch, 'toggle-%s.hdf5' % mode)
                 s = workloads.make_sampler(prob, cfg, filepath=path, resume=False)
+                guard = Hooks([], proposal_budget=BUDGET, clock=VirtualClock())
+                guard.__enter__()
                 try:
                     for st in steps:
                         if st[0] == 'finish':
@@ -304,6 +310,7 @@ def run_case(spec):
                         steps=steps)
                     break
                 finally:
+                    guard.__exit__(None, None, None)
                     workloads.close_sampler(s)
             if len(digs) == 2:
                 obs['toggle_histories'] += 1
